@@ -261,8 +261,11 @@ void tinyjambu_prng_feed
 
     /* Note: SP.800-90Ar1 says that reseed_counter should be set back to 1
      * when reseeding, but we aren't really reseeding here.  So instead we
-     * increase the "reseed needed" counter to force a real reseed later. */
-    ++(pstate->reseed_counter);
+     * increase the "reseed needed" counter to force a real reseed later.
+     * Saturate instead of wrapping around so that a very long run of
+     * feeds can never move the next reseed further away. */
+    if (pstate->reseed_counter != 0xFFFFFFFFU)
+        ++(pstate->reseed_counter);
 }
 
 /* Hash_DRBG_Reseed from section 10.1.1.3 of SP.800-90Ar1 for the special
